@@ -23,7 +23,7 @@ from pydantic import PrivateAttr, model_validator
 from scipy.interpolate import interpn
 
 from AEIC.performance.types import AircraftState, Performance, SimpleFlightRules
-from AEIC.units import METERS_TO_FL
+from AEIC.units import FL_TO_METERS
 from AEIC.utils.models import CIBaseModel
 
 from .base import BasePerformanceModel
@@ -121,6 +121,13 @@ class Interpolator:
     def __call__(self, fl: float, mass: float) -> Performance:
         """Perform bilinear interpolation to get performance values at given
         flight level and aircraft mass."""
+
+        # Absorb floating point noise from unit conversions at the ends of the
+        # table, so that the extreme tabulated flight levels are inside the
+        # envelope.
+        for fl_edge in (self.xs[0][0], self.xs[0][-1]):
+            if abs(fl - fl_edge) <= 1e-9 * max(1.0, abs(fl_edge)):
+                fl = float(fl_edge)
 
         if self.n_masses > 1:
             x = (fl, mass)
@@ -277,7 +284,9 @@ class PerformanceTable:
         The interpolation is done in the subset of the performance table
         corresponding to the given rate of climb/descent filter."""
 
-        fl = state.altitude * METERS_TO_FL
+        # Convert with the exact inverse of FL_TO_METERS (METERS_TO_FL is a
+        # rounded constant: 410 * FL_TO_METERS * METERS_TO_FL = 410.0000013).
+        fl = state.altitude / FL_TO_METERS
         mass = state.aircraft_mass
         if mass == 'min':
             mass = min(self.mass)
